@@ -50,6 +50,21 @@ def _flags(rng, g):
 
 
 def _extra(rng, g):
+    # sometimes: two first-order variables of which one name is a prefix of the other (V_d before V), the shorter one preserved, all numeric -
+    # the preserved text must be the text of THAT variable's equation
+    import re as _re
+    dyn0 = g["indict"]["dynamics"]
+    fo = [d["expression"].split("=")[0].strip()[:-1] for d in dyn0 if d["expression"].split("=")[0].count("'") == 1]
+    if len(fo) >= 2 and rng.random() < 0.15 and "options" not in g["indict"]:
+        ids = set(_re.findall(r"[A-Za-z_][A-Za-z0-9_]*", json.dumps(g["indict"])))
+        pa, pb = rng.choice(systems.AWKWARD_PAIRS)
+        if pa not in ids and pb not in ids and len(pa) != len(pb):
+            short, long_ = (pa, pb) if len(pa) < len(pb) else (pb, pa)
+            first_two = fo[:2]          # in input order: the earlier entry gets the LONGER name
+            g["indict"] = systems.apply_mapping(g["indict"], {first_two[0]: long_, first_two[1]: short})
+            g["flags"] = dict(g.get("flags", {}), preserve_expressions=rng.choice([True, [short], [short, long_]]), disable_analytic_solver=True)
+            g["flags"].pop("simplify_expression", None)
+            g["prefix_names_preserved"] = True
     # sometimes add a function-of-time entry that another equation reads
     if rng.random() < 0.2:
         name, f = rng.choice(FUNCS)
@@ -80,6 +95,8 @@ def run(ctx, driver):
         ctx.count("flags:" + ",".join(sorted(k if not isinstance(v, list) else k + "=list" for k, v in flags.items())) or "flags:none")
         if case.get("primed_preserved"):
             ctx.count("primed_reference_preserved")
+        if case.get("prefix_names_preserved"):
+            ctx.count("prefix_names_preserved")
         if res.get("error"):
             ctx.count("analysis_error:" + res["error"]["type"])
             continue
